@@ -13,6 +13,31 @@ type SeedPlan struct {
 	URL  string `json:"url"`
 	Hops int    `json:"hops"`
 	Host string `json:"host"`
+	// Raw: the spelling under which the seed is handed to the crawler when it differs from URL, its canonical form
+	// (upper-case host, explicit default port): what is requested, recorded as seen and compared is the canonical URL
+	Raw string `json:"raw,omitempty"`
+}
+
+// Spelled returns another legal spelling of a canonical http URL ("" when there is none to offer).
+func Spelled(u string) string {
+	const pfx = "http://"
+	if !strings.HasPrefix(u, pfx) {
+		return ""
+	}
+	rest := u[len(pfx):]
+	i := strings.IndexAny(rest, "/?#")
+	if i < 0 {
+		i = len(rest)
+	}
+	host := rest[:i]
+	if host == "" || strings.ContainsAny(host, "@[") {
+		return ""
+	}
+	out := strings.ToUpper(host)
+	if !strings.Contains(host, ":") {
+		out += ":80"
+	}
+	return "HTTP://" + out + rest[i:]
 }
 
 // Case is the plain-data form of one generated pipeline case.
